@@ -181,10 +181,25 @@ func (t *TargetsManager) doCallbacks() error {
 
 func (t *TargetsManager) saveTargets() error {
 	data, _ := json.Marshal(&t.targets)
-	if err := ioutil.WriteFile(t.storePath(), data, 0755); err != nil {
+	// write a temporary file and rename it over the store: a crash or a failing write at any
+	// point leaves either the previous or the new content in the store, never a partial one
+	tmp := t.storePath() + ".tmp"
+	f, err := os.OpenFile(tmp, os.O_WRONLY|os.O_CREATE|os.O_TRUNC, 0755)
+	if err != nil {
 		return err
 	}
-	return nil
+	_, err = f.Write(data)
+	if err == nil {
+		err = f.Sync()
+	}
+	if cerr := f.Close(); err == nil {
+		err = cerr
+	}
+	if err != nil {
+		_ = os.Remove(tmp)
+		return err
+	}
+	return os.Rename(tmp, t.storePath())
 }
 
 func (t *TargetsManager) storePath() string {
